@@ -23,7 +23,7 @@ SCOPE = "see Props/C08.v"
 
 def parse_view(header, ops):
     h = [int(x) for x in header.split()[2:]]
-    nodes, out, inn, queries = [], {}, {}, []
+    nodes, out, inn, queries, erefs = [], {}, {}, [], []
     for k, o in enumerate(ops):
         t = o.split()
         a = [int(x) for x in t[1:]]
@@ -33,6 +33,8 @@ def parse_view(header, ops):
             out[a[0]] = [(a[i], a[i + 1], a[i + 2]) for i in range(1, len(a) - 2, 3)]
         elif t[0] == "in":
             inn[a[0]] = [(a[i], a[i + 1], a[i + 2]) for i in range(1, len(a) - 2, 3)]
+        elif t[0] == "erefs":
+            erefs = [(a[i], a[i + 1], a[i + 2], a[i + 3]) for i in range(0, len(a) - 3, 4)]
         elif t[0] == "neighbors_edges_mismatch":
             pass
         else:
@@ -43,7 +45,8 @@ def parse_view(header, ops):
         for a in nodes:
             for (e, t_, w) in out.get(a, []):
                 inn.setdefault(t_, []).append((e, a, w))
-    return {"directed": h[0] == 1, "bound": h[1], "vcap": h[2], "nodes": nodes, "out": out, "in": inn, "hdr": h}, queries
+    return {"directed": h[0] == 1, "bound": h[1], "vcap": h[2], "nodes": nodes, "out": out, "in": inn, "hdr": h,
+            "erefs": erefs}, queries
 
 
 def succ(v, a):
